@@ -1650,6 +1650,11 @@ class DocutilsRenderer(RendererProtocol):
                         if make_terms:
                             from sphinx.domains.std import make_glossary_term
 
+                            # warnings raised while rendering the term
+                            # are not part of the text that names it
+                            messages = list(findall(term)(nodes.system_message))
+                            for message in messages:
+                                message.parent.remove(message)
                             term = make_glossary_term(
                                 self.sphinx_env,  # type: ignore[arg-type]
                                 term.children,
@@ -1659,6 +1664,7 @@ class DocutilsRenderer(RendererProtocol):
                                 node_id=None,
                                 document=self.document,
                             )
+                            term += messages
                         self.current_node.append(term)
                 elif child.type == "dd":
                     if item is None:
